@@ -195,6 +195,9 @@ class DictDecoder:
         """
         obj = None
         keys = set(data.keys())
+        if not self.config.fail_on_unknown_properties:
+            keys = self.known_keys(keys, classes)
+
         max_score = -1.0
         config = replace(self.config, fail_on_converter_warnings=True)
         decoder = DictDecoder(config=config, context=self.context)
@@ -220,6 +223,27 @@ class DictDecoder:
             f"Failed to bind object with properties({list(data.keys())}) "
             f"to any of the {[cls.__qualname__ for cls in classes]}"
         )
+
+    def known_keys(self, keys: set[str], classes: Iterable[type]) -> set[str]:
+        """Drop the keys that are not a property of any of the given classes.
+
+        Args:
+            keys: The keys of the data to bind
+            classes: The target class types to try
+
+        Returns:
+            The keys that at least one of the classes knows.
+        """
+        known: set[str] = set()
+        for clazz in classes:
+            if self.context.class_type.is_model(clazz):
+                with suppress(Exception):
+                    meta = self.context.build(clazz)
+                    known.update(
+                        var.wrapper or var.local_name for var in meta.get_all_vars()
+                    )
+
+        return keys & known
 
     def bind_value(
         self,
